@@ -61,6 +61,9 @@ func checkIPCStreamFraming(data []byte) (end int, err error) {
 		if err != nil {
 			return 0, fmt.Errorf("IPC message metadata at offset %d: %w", pos, err)
 		}
+		if err := checkMessageVectors(data[pos : pos+int(metaLen)]); err != nil {
+			return 0, fmt.Errorf("IPC message metadata at offset %d: %w", pos, err)
+		}
 		pos += int(metaLen)
 		if bodyLen < 0 || bodyLen > int64(len(data)-pos) {
 			return 0, fmt.Errorf("IPC message at offset %d declares %d body bytes, %d remain",
@@ -68,6 +71,105 @@ func checkIPCStreamFraming(data []byte) (end int, err error) {
 		}
 		pos += int(bodyLen)
 	}
+}
+
+// Vtable slots of the flatbuffer tables checkMessageVectors visits (arrow
+// format Message.fbs / Schema.fbs), and the MessageHeader union tag of Schema.
+const (
+	fbMessageHeaderType, fbMessageHeader, fbMessageCustomMetadata = 6, 8, 12
+	fbSchemaFields, fbSchemaCustomMetadata                        = 6, 8
+	fbFieldChildren, fbFieldCustomMetadata                        = 14, 16
+	fbHeaderSchema                                                = 1
+)
+
+// checkMessageVectors bounds the flatbuffer vector lengths arrow-go sizes an
+// allocation by while decoding a message's metadata: the message's
+// custom_metadata and, in a Schema message, the schema's fields and
+// custom_metadata and every field's children and custom_metadata. It does
+// make([]arrow.Field, n) / make([]string, n) with n read straight from meta
+// (up to 2^32-1 — again a fatal out-of-memory from a few flipped bits). The
+// elements are 4-byte offsets stored in meta itself, so a length claiming
+// more elements than meta has bytes left is corrupt.
+func checkMessageVectors(meta []byte) error {
+	root := int(binary.LittleEndian.Uint32(meta)) // readMessageBodyLength vetted it
+	if _, _, err := fbOffsetVector(meta, root, fbMessageCustomMetadata); err != nil {
+		return err
+	}
+	typePos, err := fbFieldPos(meta, root, fbMessageHeaderType)
+	if err != nil || typePos == 0 || typePos >= len(meta) || meta[typePos] != fbHeaderSchema {
+		return err
+	}
+	hdrPos, err := fbFieldPos(meta, root, fbMessageHeader)
+	if err != nil || hdrPos == 0 {
+		return err
+	}
+	schema, err := fbIndirect(meta, hdrPos)
+	if err != nil {
+		return err
+	}
+	if _, _, err := fbOffsetVector(meta, schema, fbSchemaCustomMetadata); err != nil {
+		return err
+	}
+	// Offsets may alias, so also cap the Field tables visited in total: a
+	// well-formed schema spends at least one 4-byte offset on each.
+	budget := len(meta) / 4
+	return checkFieldVectors(meta, schema, fbSchemaFields, 0, &budget)
+}
+
+// checkFieldVectors checks the vector of Field tables in `slot` of the table
+// at tablePos, and each field's custom_metadata and (recursively) children.
+func checkFieldVectors(meta []byte, tablePos, slot, depth int, budget *int) error {
+	start, n, err := fbOffsetVector(meta, tablePos, slot)
+	if err != nil {
+		return err
+	}
+	if *budget -= n; depth > 64 || *budget < 0 {
+		return fmt.Errorf("flatbuffer schema nests too deep or repeats its fields")
+	}
+	for i := 0; i < n; i++ {
+		field, err := fbIndirect(meta, start+4*i)
+		if err != nil {
+			return err
+		}
+		if _, _, err := fbOffsetVector(meta, field, fbFieldCustomMetadata); err != nil {
+			return err
+		}
+		if err := checkFieldVectors(meta, field, fbFieldChildren, depth+1, budget); err != nil {
+			return err
+		}
+	}
+	return nil
+}
+
+// fbOffsetVector locates the vector of 4-byte offsets the table at tablePos
+// stores in `slot`: the position of its first element and its length (0, 0
+// when absent), refusing a length its elements could not fit in meta for.
+func fbOffsetVector(meta []byte, tablePos, slot int) (start, n int, err error) {
+	pos, err := fbFieldPos(meta, tablePos, slot)
+	if err != nil || pos == 0 {
+		return 0, 0, err
+	}
+	vec, err := fbIndirect(meta, pos)
+	if err != nil || vec+4 > len(meta) {
+		return 0, 0, fmt.Errorf("flatbuffer vector out of range")
+	}
+	count := binary.LittleEndian.Uint32(meta[vec:])
+	if uint64(count) > uint64(len(meta)-vec-4)/4 {
+		return 0, 0, fmt.Errorf("flatbuffer vector declares %d elements, %d bytes remain", count, len(meta)-vec-4)
+	}
+	return vec + 4, int(count), nil
+}
+
+// fbIndirect follows the uoffset_t stored at pos (flatbuffers' Table.Indirect).
+func fbIndirect(meta []byte, pos int) (int, error) {
+	if pos < 0 || pos+4 > len(meta) {
+		return 0, fmt.Errorf("flatbuffer offset out of range")
+	}
+	off := binary.LittleEndian.Uint32(meta[pos:])
+	if uint64(off) > uint64(len(meta)-pos) {
+		return 0, fmt.Errorf("flatbuffer offset out of range")
+	}
+	return pos + int(off), nil
 }
 
 // checkIPCFraming applies [checkIPCStreamFraming] to every IPC stream
